@@ -1,11 +1,15 @@
+mod bfs;
 mod cli;
 mod engines;
 mod enumerate;
 mod explore;
 mod forkrun;
 mod mirror;
+mod observe;
+mod ops;
 mod real;
 mod refmodel;
+mod samples;
 mod scratch;
 mod selftest;
 
